@@ -208,7 +208,9 @@ type plan struct {
 	outMode  int // eEvaluate / eSeq2 / eMany*: 0 fresh at the expected level, 1 max level holding another ciphertext's data, 2 in place (eEvaluate only)
 	ltAlt    bool
 	ctAlt    bool
-	warm     bool // evaluator (buffers) already used for another transformation
+	warm     int  // 0: fresh evaluator; 1: WithKey copy of an evaluator already used for another transformation (shared buffers);
+	// 2: the SAME evaluator, the keys of the transformation under test are added to its key set after it was created and used
+	repeat   bool // the call is issued twice on the same input (out of place)
 	keyLvlQ  bool // keys generated at exactly the level needed instead of the maximum
 	describe string
 }
@@ -276,8 +278,9 @@ func choosePlan[T any](c *engine.Chooser, a *adapter[T], cfg *scenarioCfg) plan 
 	}
 	p.ltAlt = c.Bool("ltScale")
 	p.ctAlt = c.Bool("ctScale")
-	p.warm = c.Bool("warm")
+	p.warm = c.Choose(3, "warm")
 	p.keyLvlQ = c.Bool("keyLevelQ")
+	p.repeat = c.Bool("repeat")
 	for m := 0; m < nMatrices(p.entry); m++ {
 		mp := matrixPlan{idx: s.idx, ratio: cfg.ratio, levelQ: ltLevel}
 		if m > 0 {
@@ -286,11 +289,14 @@ func choosePlan[T any](c *engine.Chooser, a *adapter[T], cfg *scenarioCfg) plan 
 			if m == 1 && ltLevel-1 >= 1 && (p.entry == eMany2 || p.entry == eMany3 || p.entry == eManyNew2) {
 				mp.levelQ = ltLevel - 1 // transformations of one Many call at different levels
 			}
+			if m == 2 && ltLevel-2 >= 1 {
+				mp.levelQ = ltLevel - 2
+			}
 		}
 		p.mats = append(p.mats, mp)
 	}
-	p.describe = fmt.Sprintf("%s set=%s%v ratio=%d ltLevelQ=%d ctLevel=%d levelP=%d out=%d ltAlt=%v ctAlt=%v warm=%v keyLvlQ=%v",
-		entryName[p.entry], s.name, s.idx, cfg.ratio, ltLevel, p.ctLevel, p.levelP, p.outMode, p.ltAlt, p.ctAlt, p.warm, p.keyLvlQ)
+	p.describe = fmt.Sprintf("%s set=%s%v ratio=%d ltLevelQ=%d ctLevel=%d levelP=%d out=%d ltAlt=%v ctAlt=%v warm=%v keyLvlQ=%v repeat=%v",
+		entryName[p.entry], s.name, s.idx, cfg.ratio, ltLevel, p.ctLevel, p.levelP, p.outMode, p.ltAlt, p.ctAlt, p.warm, p.keyLvlQ, p.repeat)
 	return p
 }
 
@@ -320,6 +326,9 @@ func runLeaf[T any](c *engine.Chooser, a *adapter[T], scName string, cfg *scenar
 	c.Cover("ratio", fmt.Sprint(cfg.ratio))
 	c.Cover("ltLevelQ", levelBucket(p.mats[0].levelQ, a.maxLevel))
 	c.Cover("levelP", levelBucket(p.levelP, a.maxLvlP))
+	if a.maxLvlP == 2 && p.levelP == 0 {
+		c.Cover("levelP", "lowest3")
+	}
 	c.Cover("ctLevel", relBucket(p.ctLevel, p.mats[0].levelQ))
 	c.Cover("nDiags", sizeBucket(len(p.mats[0].idx), a.n))
 	c.Cover("ltScale", fmt.Sprint(p.ltAlt))
@@ -405,32 +414,45 @@ func runLeaf[T any](c *engine.Chooser, a *adapter[T], scName string, cfg *scenar
 	}
 	evk := a.galoisKeys(c, gals, keyLevelQ, p.levelP)
 	var ev ltEval
-	if p.warm {
-		// The evaluator's scratch buffers are not fresh: an evaluator first computes another product
-		// (dense matrix, its own keys); the evaluator under test is its WithKey copy, which shares
-		// the buffers.
-		var all []int
-		for k := 0; k < a.n; k++ {
-			all = append(all, k)
+	if p.warm > 0 {
+		// The evaluator is not fresh: it first computes another product with its own keys.
+		//   warm=1: dense matrix; the evaluator under test is its WithKey copy, which shares the scratch buffers.
+		//   warm=2: a single shift; the keys of the transformation under test are then ADDED to the key set the
+		//           evaluator was created with (tables built lazily for keys that were not there at creation).
+		widx, wratio := []int{1}, -1
+		if p.warm == 1 {
+			widx, wratio = nil, 1
+			for k := 0; k < a.n; k++ {
+				widx = append(widx, k)
+			}
 		}
 		wd := map[int][]T{}
-		for _, k := range all {
+		for _, k := range widx {
 			wd[k] = a.diag(2, k)
 		}
-		wlt, wgals, werr := a.newLT(c, lintrans.Parameters{DiagonalsIndexList: all, LevelQ: a.maxLevel, LevelP: p.levelP,
-			Scale: a.ltScale(false), LogDimensions: ct.LogDimensions, LogBabyStepGiantStepRatio: 1}, wd)
+		wlt, wgals, werr := a.newLT(c, lintrans.Parameters{DiagonalsIndexList: widx, LevelQ: a.maxLevel, LevelP: p.levelP,
+			Scale: a.ltScale(false), LogDimensions: ct.LogDimensions, LogBabyStepGiantStepRatio: wratio}, wd)
 		if werr != nil {
 			c.Fail("C12/"+a.scheme+"/Encode/error", "%s: warm-up matrix: %v", p.describe, werr)
 			return
 		}
-		ev0, rekey := a.newEval(a.galoisKeys(c, wgals, -1, p.levelP))
+		wks := a.galoisKeys(c, wgals, -1, p.levelP)
+		ev0, rekey := a.newEval(wks)
 		wct := a.ciphertext(c, "warm-up", a.diag(1, 2), a.maxLevel, false)
 		if _, werr = ev0.EvaluateNew(wct, wlt); werr != nil {
 			c.Fail("C12/"+a.scheme+"/EvaluateNew/error", "%s: warm-up evaluation: %v", p.describe, werr)
 			return
 		}
-		ev = rekey(evk)
-		c.Cover("evaluator", "reused")
+		if p.warm == 1 {
+			ev = rekey(evk)
+			c.Cover("evaluator", "reused")
+		} else {
+			for g, k := range evk.GaloisKeys {
+				wks.GaloisKeys[g] = k
+			}
+			ev = ev0
+			c.Cover("evaluator", "late-keys")
+		}
 	} else {
 		ev, _ = a.newEval(evk)
 		c.Cover("evaluator", "fresh")
@@ -449,7 +471,8 @@ func runLeaf[T any](c *engine.Chooser, a *adapter[T], scName string, cfg *scenar
 		return a.newCt(lvl)
 	}
 	inPlace := false
-	pe := recoverToErr(func() error {
+	call := func() error {
+		outs = nil
 		switch p.entry {
 		case eEvaluateNew:
 			var o *rlwe.Ciphertext
@@ -479,11 +502,44 @@ func runLeaf[T any](c *engine.Chooser, a *adapter[T], scName string, cfg *scenar
 			outs = []*rlwe.Ciphertext{o}
 		}
 		return nil
-	})
+	}
+	pe := recoverToErr(call)
 	if pe != "" {
 		c.Fail(sigBase+"/panic", "%s: %s", p.describe, pe)
 		return
 	}
+	first, firstErr := outs, err
+	// The same call once more on the same input, same evaluator, new receivers (out of place only): evaluation is
+	// deterministic, so it must give the SAME ciphertexts; a difference means the first call changed its input,
+	// the transformation or the evaluator.
+	if p.repeat && !inPlace && err == nil {
+		if pe2 := recoverToErr(call); pe2 != "" {
+			c.Fail(sigBase+"/repeat/panic", "%s: second identical call: %s", p.describe, pe2)
+			return
+		}
+		if err != nil {
+			c.Fail(sigBase+"/repeat/error", "%s: second identical call: %v", p.describe, err)
+			return
+		}
+		for i := range first {
+			if first[i] != nil && outs[i] != nil && !first[i].Equal(outs[i]) {
+				// the two known input classes read stale buffers, hence are history dependent: same class, same treatment
+				known := false
+				for m := range lts {
+					known = known || naiveOnlyZero(lts[m])
+				}
+				known = known || (len(lts) > 1 && p.entry != eSeq2 && p.entry != eSeqNew2 && earlierGiantStep(lts[:len(lts)-1]))
+				if known && cfg.tag == "" {
+					c.Cover("demoted", "repeat-in-known-class")
+					break
+				}
+				c.Fail(sigBase+"/repeat/differs", "%s: output %d of a second identical out-of-place call differs from the first", p.describe, i)
+				break
+			}
+		}
+		c.Cover("repeat", "yes")
+	}
+	outs, err = first, firstErr
 
 	seq := p.entry == eSeq2 || p.entry == eSeqNew2
 	// expected levels
